@@ -1,21 +1,9 @@
-"""C12 — decided by the shared IRC-layer engine (checks/irc_common.py) on the bare state machine and by
-the HTTP-level stage (checks/irc_http.py) on a complete single-node network: what every session's real
-long poll delivers is exactly what the (validated) recipient sets say."""
-import json
-
-from checks import irc_common, irc_http
+"""C12 — decided by the shared IRC-layer engine (checks/irc_common.py) on the bare state machine and by the
+HTTP-level stage (checks/irc_http.py) on a complete single-node network: what every session's real long poll delivers is exactly what the (validated) recipient sets say."""
+from checks import irc_http
 
 LEVEL = "model_checking"
 
 
 def run(ctx):
-    rp = None
-    if getattr(ctx, "replay", None):
-        with open(ctx.replay) as fh:
-            rp = (json.load(fh).get("replay") or {}).get("rig_program")
-    if rp:
-        irc_http.report(ctx, "C12", replay_program=rp)
-        return
-    irc_common.report(ctx, "C12")
-    if not getattr(ctx, "replay", None):
-        irc_http.report(ctx, "C12")
+    irc_http.run_check(ctx, "C12")
